@@ -26,7 +26,7 @@ import numpy as np
 warnings.filterwarnings("ignore")
 import mdtraj as md  # noqa: E402
 
-TOPEXT = (".h5", ".lh5", ".pdb", ".pdb.gz", ".gro", ".arc", ".hoomdxml", ".gsd")
+TOPEXT = (".h5", ".hdf5", ".lh5", ".pdb", ".pdb.gz", ".gro", ".arc", ".hoomdxml", ".gsd")
 N_ATOMS = 4
 
 
@@ -160,7 +160,50 @@ def write_mdcrd_hand(path, T, base, n_atoms, cell, style):
                 fh.write("%8.3f%8.3f%8.3f\n" % (L, L, L))
 
 
-HAND = {"lammpstrj": write_lammpstrj_hand, "xyz": write_xyz_hand, "gro": write_gro_hand, "pdb": write_pdb_hand,
+def n_free_of(n_atoms):
+    """fixed-atom DCD: atoms 0 .. n_free-1 are free, the others fixed (their coordinates live in frame 0 only)"""
+    return max(1, n_atoms // 2)
+
+
+def write_dcd_fixed(path, T, base, n_atoms, cell, style):
+    """A CHARMM/NAMD DCD with fixed atoms (header NAMNF > 0 + free-atom index block): frame 0 stores every atom,
+    later frames only the free ones; dcdplugin reads them, mdtraj never writes them (after cursor_impl.py).
+    Free atom a of frame fid sits at ((fid+1), (a+1), 0.5) A, a fixed atom at ((base+1), (a+1), 0.5) A in every frame."""
+    import struct
+    n_free = n_free_of(n_atoms)
+    free = np.arange(n_free, dtype=np.int32)
+    xyz = np.zeros((T, n_atoms, 3), dtype=np.float32)
+    for i in range(T):
+        for a in range(n_atoms):
+            xyz[i, a] = ((base + i + 1) * 1.0 if a < n_free else (base + 1) * 1.0, (a + 1) * 1.0, 0.5)
+
+    def rec(payload):
+        mark = struct.pack("<i", len(payload))
+        return mark + payload + mark
+
+    ints = [0] * 20
+    ints[0] = T
+    ints[2] = 1
+    ints[8] = n_atoms - n_free
+    ints[10] = 1 if cell else 0
+    ints[19] = 24
+    block = bytearray(b"CORD" + struct.pack("<20i", *ints))
+    block[4 + 36: 4 + 40] = struct.pack("<f", 1.0)
+    out = [rec(bytes(block)), rec(struct.pack("<i", 1) + b"fixed atoms".ljust(80)), rec(struct.pack("<i", n_atoms))]
+    if n_atoms - n_free > 0:
+        out.append(rec((free + 1).astype("<i4").tobytes()))
+    for f in range(T):
+        sel = slice(None) if f == 0 else free
+        if cell:
+            L = (base + f + 2.0) * 10.0
+            out.append(rec(struct.pack("<6d", L, 0.0, L, 0.0, 0.0, L)))
+        for dd in range(3):
+            out.append(rec(xyz[f, sel, dd].astype("<f4").tobytes()))
+    with open(path, "wb") as fh:
+        fh.write(b"".join(out))
+
+
+HAND = {"dcd": write_dcd_fixed, "lammpstrj": write_lammpstrj_hand, "xyz": write_xyz_hand, "gro": write_gro_hand, "pdb": write_pdb_hand,
         "mdcrd": write_mdcrd_hand}
 
 _made = {}
@@ -175,6 +218,14 @@ def make_file(fmt, T, base, n_atoms, d, cell=True, style="mdtraj"):
     if not os.path.exists(p):
         if style != "mdtraj":
             HAND[fmt](p, T, base, n_atoms, cell, style)
+        elif fmt == "hdf5":
+            # the second registered extension of the HDF5 reader: same bytes as the .h5 file
+            import shutil
+            shutil.copyfile(make_file("h5", T, base, n_atoms, d, cell, style), p)
+        elif fmt == "stk":
+            # a DESRES "stk" file lists dtr directories, one per line
+            with open(p, "w") as fh:
+                fh.write(make_file("dtr", T, base, n_atoms, d, cell, style) + "\n")
         elif fmt == "arc":
             write_arc(p, T, base, n_atoms, cell)
         else:
@@ -190,22 +241,29 @@ def top_path(n_atoms, d):
     return p
 
 
-def frame_obs(t, ai, n_atoms):
-    """per frame (id, flag): flag 1 = exactly the atoms ai, 0 = exactly all atoms; id -1 = not a frame we wrote"""
+def frame_obs(t, ai, n_atoms, fixed=None):
+    """per frame (id, flag): flag 1 = exactly the atoms ai, 0 = exactly all atoms; id -1 = not a frame we wrote.
+    fixed = n_free for a fixed-atom DCD: atoms >= n_free must sit where frame 0 of their file has them"""
     xyz = np.asarray(t.xyz, dtype=float)
     out = []
     allatoms = list(range(n_atoms))
     for fr in xyz:
-        if fr.ndim != 2 or fr.shape[0] == 0:
-            out.append([-1, 0])
+        if fr.ndim != 2 or fr.shape[0] == 0 or not np.all(np.isfinite(fr)) or np.any(np.abs(fr) > 1e6):
+            out.append([-1, 0])        # empty / NaN / absurd values: a garbage frame (uninitialised buffer of a diverging reader)
             continue
         v = fr[0, 0] * 10.0 - 1.0
         r = int(round(v))
         ok = abs(v - r) < 0.02 and abs(fr[0, 2] - 0.05) < 0.002 and r >= 0
-        same = bool(np.all(np.abs(fr[:, 0] - fr[0, 0]) < 0.002))
         av = fr[:, 1] * 10.0 - 1.0
         atoms = [int(round(x)) for x in av]
         exact = bool(np.all(np.abs(av - np.round(av)) < 0.02))
+        if fixed is None:
+            same = bool(np.all(np.abs(fr[:, 0] - fr[0, 0]) < 0.002))
+        else:
+            # the first atom identifies the frame (the generator always selects a free atom first)
+            want = np.array([(r + 1) * 0.1 if a < fixed else (10 * (r // 10) + 1) * 0.1 for a in atoms])
+            same = bool(np.all(np.abs(fr[:, 0] - want) < 0.002)) and bool(np.all(np.abs(fr[:, 2] - 0.05) < 0.002)) \
+                and bool(atoms and atoms[0] < fixed)
         if not (ok and same and exact):
             out.append([-1, 0])
         elif ai is not None and atoms == list(ai):
@@ -229,12 +287,14 @@ def top_atoms(t, fmt):
 
 def int_or(x, bad=-777):
     x = float(x)
+    if not np.isfinite(x) or abs(x) > 1e9:
+        return bad
     r = int(round(x))
     return r if abs(x - r) < 0.02 else bad
 
 
-def traj_obs(t, fmt, ai, n_atoms, ref):
-    fo = frame_obs(t, ai, n_atoms)
+def traj_obs(t, fmt, ai, n_atoms, ref, fixed=None):
+    fo = frame_obs(t, ai, n_atoms, fixed)
     tm = [int_or(x) for x in t.time]
     cell = [int_or(x[0] - 2.0) for x in t.unitcell_lengths] if t.unitcell_lengths is not None else None
     tbad, cbad = [], []
@@ -264,10 +324,12 @@ def reference(fmt, T, base, n_atoms, d, cell=True, style="mdtraj"):
     key = (fmt, T, base, n_atoms, cell, style)
     if key not in _ref:
         p = make_file(fmt, T, base, n_atoms, d, cell, style)
+        if fmt == "hdf5":
+            p = make_file("h5", T, base, n_atoms, d, cell, style)      # same bytes; md.load('x.hdf5') itself refuses (finding)
         kw = {} if ("." + fmt) in TOPEXT else {"top": top_path(n_atoms, d)}
         try:
             t = md.load(p, **kw)
-            fo = frame_obs(t, None, n_atoms)
+            fo = frame_obs(t, None, n_atoms, n_free_of(n_atoms) if style == "fixed" else None)
             tm = [int_or(x) for x in t.time]
             cl = [int_or(x[0] - 2.0) for x in t.unitcell_lengths] if t.unitcell_lengths is not None else None
             r = {}
@@ -287,20 +349,32 @@ def _setup(case, d, top_obj=None):
     fmt = case["fmt"]
     ai = case.get("ai")
     Ts = case["Ts"]
-    paths = [make_file(fmt, T, 10 * j, n_atoms, d, cell, style) for j, T in enumerate(Ts)]
+    bases = case.get("bases") or [10 * j for j in range(len(Ts))]
+    paths = [make_file(fmt, T, bases[j], n_atoms, d, cell, style) for j, T in enumerate(Ts)]
     ref = {}
+    seen = {}
     for j, T in enumerate(Ts):
-        r = reference(fmt, T, 10 * j, n_atoms, d, cell, style)
+        r = reference(fmt, T, bases[j], n_atoms, d, cell, style)
         if r is None:
             ref = None
             break
+        for i in r:
+            seen[i] = seen.get(i, 0) + 1
         ref.update(r)
+    if ref is not None:
+        # a frame identifier that occurs in two files (overlapping junction) has two legitimate times for the formats that
+        # synthesise time: those frames are checked by the join oracle of the load_list kind instead
+        ref = {i: v for i, v in ref.items() if seen[i] == 1}
     kw = {}
     if ("." + fmt) not in TOPEXT:
         kw["top"] = top_obj if top_obj is not None else top_path(n_atoms, d)
     if ai is not None:
         kw["atom_indices"] = list(ai)
     return fmt, ai, n_atoms, paths, ref, kw
+
+
+def fixed_of(case):
+    return n_free_of(int(case.get("n_atoms", N_ATOMS))) if case.get("style") == "fixed" else None
 
 
 def _err(e, chunks):
@@ -311,11 +385,68 @@ def _err(e, chunks):
     return {"err": type(e).__name__, "msg": str(e)[:160], "chunks": chunks}
 
 
+def join_oracle(got, paths, kw, dk):
+    """the last clause of C02 taken literally: md.load([f1..fk], **kw) == md.join([md.load(f, **kw) for f in ..]) in every
+    field (bitwise: both sides are produced by the same readers)"""
+    try:
+        parts = [md.load(p, **kw) for p in paths]
+        want = parts[0] if len(parts) == 1 else md.join(parts, check_topology=False, **dk)
+    except BaseException as e:  # noqa
+        if isinstance(e, (KeyboardInterrupt, SystemExit, Timeout)):
+            raise
+        return None           # the individual loads refuse: nothing to compare with (the Coq comparison judges the list load)
+    bad = []
+    if got.xyz.shape != want.xyz.shape or not np.array_equal(got.xyz, want.xyz, equal_nan=True):
+        bad.append(["xyz", list(got.xyz.shape), list(want.xyz.shape)])
+    if got.time.shape != want.time.shape or not np.array_equal(got.time, want.time, equal_nan=True):
+        bad.append(["time", [float(x) for x in got.time[:12]], [float(x) for x in want.time[:12]]])
+    for name in ("unitcell_lengths", "unitcell_angles"):
+        a, b = getattr(got, name), getattr(want, name)
+        if (a is None) != (b is None) or (a is not None and (a.shape != b.shape or not np.array_equal(a, b, equal_nan=True))):
+            bad.append([name, None if a is None else [float(x) for x in a[:12, 0]], None if b is None else [float(x) for x in b[:12, 0]]])
+    if (got.topology is None) != (want.topology is None) or (got.topology is not None and got.topology != want.topology):
+        bad.append(["topology", str(got.topology), str(want.topology)])
+    return bad or None
+
+
+def list_fields(o, got, case, d):
+    """time and cell of a list load, frame by frame, against the full loads of the individual files put together the way
+    the property says (file order; with discard_overlapping_frames the LAST frame of the earlier file goes when it equals the
+    first frame of the next).  Independent of md.join; covers the junction frames, whose identifiers occur in two files."""
+    n_atoms = int(case.get("n_atoms", N_ATOMS))
+    Ts = case["Ts"]
+    bases = case.get("bases") or [10 * j for j in range(len(Ts))]
+    stride = case.get("stride") or 1
+    seq = []
+    for j, T in enumerate(Ts):
+        r = reference(case["fmt"], T, bases[j], n_atoms, d, bool(case.get("cell", True)), case.get("style", "mdtraj"))
+        if r is None:
+            return
+        seg = [(i,) + tuple(r[i]) for i in range(bases[j], bases[j] + T, stride) if i in r]
+        if case.get("discard") and seq and seg and seq[-1][0] == seg[0][0]:
+            seq.pop()
+        seq += seg
+    if [i for i, _f in o["frames"]] != [x[0] for x in seq]:
+        return                      # other frames than promised: reported through the Coq comparison
+    tm = [int_or(x) for x in got.time]
+    cell = [int_or(x[0] - 2.0) for x in got.unitcell_lengths] if got.unitcell_lengths is not None else None
+    for j, (i, rt, rc) in enumerate(seq):
+        if j >= len(tm) or tm[j] != rt:
+            if [i, tm[j] if j < len(tm) else None, rt] not in o["time_bad"]:
+                o["time_bad"].append([i, tm[j] if j < len(tm) else None, rt])
+        gc = None if cell is None else (cell[j] if j < len(cell) else None)
+        if gc != rc and [i, gc, rc] not in o["cell_bad"]:
+            o["cell_bad"].append([i, gc, rc])
+    o["time_bad"] = o["time_bad"][:3]
+    o["cell_bad"] = o["cell_bad"][:3]
+
+
 def run_case(case, d, top_obj=None):
     if case["kind"] == "history":
         return run_history(case, d)
     fmt, ai, n_atoms, paths, ref, kw = _setup(case, d, top_obj)
     kind = case["kind"]
+    fx = fixed_of(case)
     chunks = []
     try:
         signal.alarm(15)
@@ -324,20 +455,25 @@ def run_case(case, d, top_obj=None):
                 kw["stride"] = case["stride"]
             if case.get("frame") is not None:
                 kw["frame"] = case["frame"]
-            return {"traj": traj_obs(md.load(paths[0], **kw), fmt, ai, n_atoms, ref)}
+            return {"traj": traj_obs(md.load(paths[0], **kw), fmt, ai, n_atoms, ref, fx)}
         if kind == "load_frame":
-            return {"traj": traj_obs(md.load_frame(paths[0], case["frame"], **kw), fmt, ai, n_atoms, ref)}
+            return {"traj": traj_obs(md.load_frame(paths[0], case["frame"], **kw), fmt, ai, n_atoms, ref, fx)}
         if kind == "iterload":
             limit = case["limit"]
             for ch in md.iterload(paths[0], chunk=case["chunk"], stride=case["stride"], skip=case["skip"], **kw):
-                chunks.append(traj_obs(ch, fmt, ai, n_atoms, ref))
+                chunks.append(traj_obs(ch, fmt, ai, n_atoms, ref, fx))
                 if len(chunks) > limit:
                     return {"err": "NonTermination", "chunks": chunks}
             return {"chunks": chunks}
         if kind == "load_list":
             if case.get("stride") is not None:
                 kw["stride"] = case["stride"]
-            return {"traj": traj_obs(md.load(paths, **kw), fmt, ai, n_atoms, ref)}
+            dk = {"discard_overlapping_frames": True} if case.get("discard") else {}
+            got = md.load(paths, **kw, **dk)
+            o = {"traj": traj_obs(got, fmt, ai, n_atoms, ref, fx)}
+            o["join_bad"] = join_oracle(got, paths, kw, dk)
+            list_fields(o["traj"], got, case, d)
+            return o
         raise AssertionError(kind)
     except BaseException as e:  # noqa
         if isinstance(e, (KeyboardInterrupt, SystemExit)):
@@ -372,7 +508,7 @@ def run_history(case, d):
                     g, fmt, ai, na, ref = gens[j]
                     try:
                         ch = next(g)
-                        obs[j]["chunks"].append(traj_obs(ch, fmt, ai, na, ref))
+                        obs[j]["chunks"].append(traj_obs(ch, fmt, ai, na, ref, fixed_of(st)))
                     except StopIteration:
                         obs[j]["exhausted"] = True
             elif ev == "drop":
@@ -477,12 +613,13 @@ def main():
         flat += c["steps"] if c.get("kind") == "history" else [c]
     for c in flat:
         for j, T in enumerate(c["Ts"]):
+            b = (c.get("bases") or [10 * jj for jj in range(len(c["Ts"]))])[j]
             try:
-                make_file(c["fmt"], T, 10 * j, int(c.get("n_atoms", N_ATOMS)), d, bool(c.get("cell", True)), c.get("style", "mdtraj"))
+                make_file(c["fmt"], T, b, int(c.get("n_atoms", N_ATOMS)), d, bool(c.get("cell", True)), c.get("style", "mdtraj"))
             except Exception as e:  # noqa
                 sys.stderr.write("cannot write %s T=%d: %r\n" % (c["fmt"], T, e))
                 continue
-            reference(c["fmt"], T, 10 * j, int(c.get("n_atoms", N_ATOMS)), d, bool(c.get("cell", True)), c.get("style", "mdtraj"))
+            reference(c["fmt"], T, b, int(c.get("n_atoms", N_ATOMS)), d, bool(c.get("cell", True)), c.get("style", "mdtraj"))
         top_path(int(c.get("n_atoms", N_ATOMS)), d)
     top_path(N_ATOMS, d)
     results = [None] * len(cases)
